@@ -116,7 +116,8 @@ Fixpoint compile (w : Z) (rt : cty) (d : nat) (s : cstmt) (k : ccode) : option c
 
 (* constants and registers of a switch live in the int type *)
 Definition wrap_int (w : Z) (z : Z) : Z := normt w CInt z.
-Notation cruns w := (runs ltree eval_l (wrap_int w)).
+(* calls are not modelled for C3: empty function table *)
+Notation cruns w := (runs ltree eval_l (wrap_int w) (fun _ => None)).
 
 (* rendering for the structural comparison with decompiled c3_to_ir output *)
 From Coq Require Import String.
